@@ -550,3 +550,683 @@ func serverPathFns(c *Ctx) []*ssa.Function {
 	}
 	return fns
 }
+
+// ---------------------------------------------------------------- R-params-whole (C10)
+// A notification's parameters are the `_meta` member plus the additional members; the type's own encoder writes both.
+// A function that takes a notification apart and forwards only Params.AdditionalFields (rebuilding the message from the
+// method and that map) silently drops `_meta` — progress tokens and whatever the caller put there. Every library function
+// that reads the AdditionalFields member of a NotificationParams it did not build itself also reads Meta of the same
+// record (or passes the record on whole).
+func c10ParamsWhole(c *Ctx) {
+	n := 0
+	for _, fn := range c.P.LibFns {
+		if fn.Signature.Recv() != nil && strings.HasSuffix(strings.TrimPrefix(ir.TypeStr(fn.Signature.Recv().Type()), "*"), "NotificationParams") {
+			continue
+		}
+		reads := map[string]ssa.Instruction{} // base path -> first read of AdditionalFields
+		meta := map[string]bool{}
+		note := func(in ssa.Instruction, owner, name string, base ssa.Value, loaded bool) {
+			if !strings.HasSuffix(owner, "NotificationParams") || !loaded {
+				return
+			}
+			if ir.BaseAlloc(base) {
+				return // a record the function is building
+			}
+			p := ir.Path(base)
+			switch name {
+			case "AdditionalFields":
+				if reads[p] == nil {
+					reads[p] = in
+				}
+			case "Meta":
+				meta[p] = true
+			}
+		}
+		ir.EachInstr(fn, func(_ *ssa.BasicBlock, _ int, in ssa.Instruction) {
+			switch x := in.(type) {
+			case *ssa.FieldAddr:
+				st, ok := x.X.Type().Underlying().(*types.Pointer).Elem().Underlying().(*types.Struct)
+				if !ok {
+					return
+				}
+				loaded := false
+				for _, r := range *x.Referrers() {
+					if u, ok := r.(*ssa.UnOp); ok && u.Op == token.MUL {
+						loaded = true
+					}
+				}
+				note(in, ir.TypeStr(x.X.Type().Underlying().(*types.Pointer).Elem()), st.Field(x.Field).Name(), x.X, loaded)
+			case *ssa.Field:
+				st, ok := x.X.Type().Underlying().(*types.Struct)
+				if !ok {
+					return
+				}
+				note(in, ir.TypeStr(x.X.Type()), st.Field(x.Field).Name(), x.X, true)
+			}
+		})
+		var ps []string
+		for p := range reads {
+			ps = append(ps, p)
+		}
+		sort.Strings(ps)
+		for _, p := range ps {
+			n++
+			c.R.Check(meta[p], "R-params-whole", sprintf("members of the notification parameters %s read in %s", p, fname(fn)), c.Pos(reads[p].Pos()),
+				"Meta is read alongside AdditionalFields",
+				sprintf("%s takes the additional members out of a notification's parameters (%s.AdditionalFields) without reading %s.Meta: the message it builds from them has lost the notification's `_meta` member, so what the client receives is not what the handler sent", fname(fn), p, p))
+		}
+	}
+	if n == 0 {
+		c.R.Hold("R-params-whole", "no library function outside the parameters' own encoder reads AdditionalFields of a notification it was handed", "", "notifications are forwarded whole")
+	}
+}
+
+// ---------------------------------------------------------------- R-publish-after-header (C09)
+// Once a handler has put a record holding its http.ResponseWriter into a shared table, other goroutines write frames to
+// that writer under the record's write lock. From that point on the handler's own direct use of the writer (setting
+// headers, WriteHeader, Flush, writing a frame) is a second, unsynchronised writer on the same connection: frames and
+// the response head interleave. After the publication the handler therefore touches the writer only while holding a
+// lock that is a member of the published record (or not at all).
+func c09PublishAfterHeader(c *Ctx, rule string) {
+	n := 0
+	for _, fn := range c.P.LibFns {
+		if clientSide(c, fn) {
+			continue
+		}
+		var w *ssa.Parameter
+		for _, p := range fn.Params {
+			if isResponseWriter(p.Type()) {
+				w = p
+			}
+		}
+		if w == nil {
+			continue
+		}
+		derived := map[ssa.Value]bool{w: true}
+		for changed := true; changed; {
+			changed = false
+			ir.EachInstr(fn, func(_ *ssa.BasicBlock, _ int, in ssa.Instruction) {
+				v, ok := in.(ssa.Value)
+				if !ok || derived[v] {
+					return
+				}
+				switch x := in.(type) {
+				case *ssa.TypeAssert:
+					if derived[x.X] {
+						derived[v], changed = true, true
+					}
+				case *ssa.Extract:
+					if derived[x.Tuple] && x.Index == 0 {
+						derived[v], changed = true, true
+					}
+				case *ssa.MakeInterface:
+					if derived[x.X] {
+						derived[v], changed = true, true
+					}
+				case *ssa.ChangeInterface:
+					if derived[x.X] {
+						derived[v], changed = true, true
+					}
+				}
+			})
+		}
+		records := map[ssa.Value]string{}
+		ir.EachInstr(fn, func(_ *ssa.BasicBlock, _ int, in ssa.Instruction) {
+			st, ok := in.(*ssa.Store)
+			if !ok || !derived[st.Val] {
+				return
+			}
+			if fa, ok := st.Addr.(*ssa.FieldAddr); ok {
+				if al, ok := fa.X.(*ssa.Alloc); ok && al.Heap {
+					if pt, ok := al.Type().Underlying().(*types.Pointer); ok {
+						if nm, ok := pt.Elem().(*types.Named); ok {
+							records[al] = nm.Obj().Name()
+						}
+					}
+				}
+			}
+		})
+		if len(records) == 0 {
+			continue
+		}
+		ir.EachInstr(fn, func(_ *ssa.BasicBlock, _ int, pub ssa.Instruction) {
+			var val ssa.Value
+			switch x := pub.(type) {
+			case *ssa.MapUpdate:
+				val = x.Value
+			case *ssa.Call:
+				if ir.CallName(x) == "(*sync.Map).Store" && len(x.Call.Args) == 3 {
+					val = x.Call.Args[2]
+				}
+			}
+			if val == nil {
+				return
+			}
+			if mi, ok := val.(*ssa.MakeInterface); ok {
+				val = mi.X
+			}
+			tname, isRec := records[val]
+			if !isRec {
+				return
+			}
+			n++
+			var bad ssa.Instruction
+			ir.EachInstr(fn, func(_ *ssa.BasicBlock, _ int, u ssa.Instruction) {
+				if bad != nil || u == pub {
+					return
+				}
+				call, ok := u.(ssa.CallInstruction)
+				if !ok {
+					return
+				}
+				uses := false
+				cc := call.Common()
+				if cc.IsInvoke() && derived[cc.Value] {
+					uses = true
+				}
+				for _, a := range cc.Args {
+					if derived[a] {
+						uses = true
+					}
+				}
+				if !uses || !flow.Reaches(pub, u) {
+					return
+				}
+				for k := range c.Locks().At(u) {
+					if strings.HasPrefix(k, tname+".") {
+						return
+					}
+				}
+				bad = u
+			})
+			detail := ""
+			if bad != nil {
+				detail = sprintf("%s registers a %s holding its http.ResponseWriter in a shared table and then still uses the writer itself (%s) without the record's write lock: from the registration on other goroutines write frames to that writer under the lock, so the handler's header/status/flush and their frames interleave on one connection (a corrupted chunked stream, a frame before the response head)", fname(fn), tname, ipos(c, bad))
+			}
+			c.R.Check(bad == nil, rule, sprintf("use of the ResponseWriter after %s publishes its %s", fname(fn), tname), c.Pos(pub.Pos()),
+				"after the publication the handler uses the writer only through the record, under its lock", detail)
+		})
+	}
+	if n < 1 {
+		c.R.Break("%s: no handler publishes a record holding its ResponseWriter", rule)
+	}
+}
+
+// ---------------------------------------------------------------- R-dispatch-ungated (C01, C15)
+// "The handler runs exactly once per request" and "every request passes the chain": request ids are chosen by each client
+// on its own, so two sessions legitimately use the same id at the same time. Between decoding a request and handing it
+// to the dispatcher a server must therefore not take a decision from state shared between sessions that is keyed by the
+// request id alone (a server-wide "in flight" set, a duplicate filter): the second session's request would be dropped
+// as a copy of the first one's. A guard of a dispatch site that is computed from a table member of the server looked up
+// by a key derived from the request's id — and from nothing that identifies the session — violates this.
+func dispatchUngated(c *Ctx, rule string) {
+	var dependsOn func(v ssa.Value, d int, seen map[ssa.Value]bool) (id, sess bool)
+	dependsOn = func(v ssa.Value, d int, seen map[ssa.Value]bool) (id, sess bool) {
+		if v == nil || d > 8 || seen[v] {
+			return
+		}
+		seen[v] = true
+		if f, _, ok := ir.LoadedField(v); ok {
+			if f.Name == "ID" {
+				if _, isIface := f.Type.Underlying().(*types.Interface); isIface {
+					return true, false
+				}
+			}
+			if strings.Contains(strings.ToLower(f.Name), "session") {
+				return false, true
+			}
+		}
+		if strings.Contains(ir.TypeStr(v.Type()), "ession") {
+			return false, true
+		}
+		var ops []*ssa.Value
+		if in, ok := v.(ssa.Instruction); ok {
+			ops = in.Operands(ops)
+		}
+		// a local captured by a closure lives in a cell: what was stored into the cell
+		if u, ok := v.(*ssa.UnOp); ok && u.Op == token.MUL {
+			if al, ok := u.X.(*ssa.Alloc); ok {
+				for _, r := range *al.Referrers() {
+					if st, ok := r.(*ssa.Store); ok && st.Addr == ssa.Value(al) {
+						i2, s2 := dependsOn(st.Val, d+1, seen)
+						id, sess = id || i2, sess || s2
+					}
+				}
+			}
+		}
+		for _, o := range ops {
+			if *o == nil {
+				continue
+			}
+			if _, isFn := (*o).(*ssa.Function); isFn {
+				continue
+			}
+			i2, s2 := dependsOn(*o, d+1, seen)
+			id, sess = id || i2, sess || s2
+		}
+		return
+	}
+	// does fn consult (lookup / LoadOrStore / update) a table member of its receiver with a key that is its parameter?
+	sharedTableByParam := func(fn *ssa.Function) string {
+		if fn == nil || fn.Blocks == nil || fn.Signature.Recv() == nil {
+			return ""
+		}
+		out := ""
+		isParam := func(v ssa.Value) bool {
+			for d := 0; d < 4; d++ {
+				switch x := v.(type) {
+				case *ssa.Parameter:
+					return x != fn.Params[0]
+				case *ssa.MakeInterface:
+					v = x.X
+				case *ssa.Convert:
+					v = x.X
+				case *ssa.ChangeType:
+					v = x.X
+				default:
+					return false
+				}
+			}
+			return false
+		}
+		ir.EachInstr(fn, func(_ *ssa.BasicBlock, _ int, in ssa.Instruction) {
+			switch x := in.(type) {
+			case *ssa.Lookup:
+				if f, base, ok := ir.LoadedField(x.X); ok && base == ssa.Value(fn.Params[0]) && isParam(x.Index) {
+					out = f.Key()
+				}
+			case *ssa.Call:
+				n := ir.CallName(x)
+				if (n == "(*sync.Map).LoadOrStore" || n == "(*sync.Map).Load") && len(x.Call.Args) >= 2 && isParam(x.Call.Args[1]) {
+					if fa, ok := x.Call.Args[0].(*ssa.FieldAddr); ok && fa.X == ssa.Value(fn.Params[0]) {
+						key, _, _, _ := ir.FullField(fa)
+						out = key
+					}
+				}
+			}
+		})
+		return out
+	}
+	condFrom := func(fn *ssa.Function, cond ssa.Value) string {
+		for d := 0; d < 4; d++ {
+			if u, ok := cond.(*ssa.UnOp); ok && u.Op == token.NOT {
+				cond = u.X
+				continue
+			}
+			break
+		}
+		var call *ssa.Call
+		switch x := cond.(type) {
+		case *ssa.Call:
+			call = x
+		case *ssa.Extract:
+			if cl, ok := x.Tuple.(*ssa.Call); ok {
+				call = cl
+			}
+			if lk, ok := x.Tuple.(*ssa.Lookup); ok {
+				if f, base, ok := ir.LoadedField(lk.X); ok && !ir.BaseAlloc(unspill(base)) {
+					if id, sess := dependsOn(lk.Index, 0, map[ssa.Value]bool{}); id && !sess {
+						return f.Key()
+					}
+				}
+			}
+		}
+		if call == nil {
+			return ""
+		}
+		n := ir.CallName(call)
+		if (n == "(*sync.Map).LoadOrStore" || n == "(*sync.Map).Load") && len(call.Call.Args) >= 2 {
+			if fa, ok := call.Call.Args[0].(*ssa.FieldAddr); ok && !ir.BaseAlloc(unspill(fa.X)) {
+				if id, sess := dependsOn(call.Call.Args[1], 0, map[ssa.Value]bool{}); id && !sess {
+					key, _, _, _ := ir.FullField(fa)
+					return key
+				}
+			}
+			return ""
+		}
+		sc := ir.StaticCallee(call)
+		if sc == nil || !c.P.IsLib(sc) {
+			return ""
+		}
+		tbl := sharedTableByParam(sc)
+		if tbl == "" {
+			return ""
+		}
+		anyID, anySess := false, false
+		for i, a := range call.Call.Args {
+			if i == 0 {
+				continue // the receiver
+			}
+			id, sess := dependsOn(a, 0, map[ssa.Value]bool{})
+			anyID, anySess = anyID || id, anySess || sess
+		}
+		if anyID && !anySess {
+			return tbl
+		}
+		return ""
+	}
+	n := 0
+	for _, fn := range c.P.LibFns {
+		if clientSide(c, fn) {
+			continue
+		}
+		var sites []ssa.Instruction
+		ir.EachInstr(fn, func(_ *ssa.BasicBlock, _ int, in ssa.Instruction) {
+			switch x := in.(type) {
+			case ssa.CallInstruction:
+				if c.isDispatchCall(x) {
+					sites = append(sites, in)
+					return
+				}
+				// a goroutine / deferred closure that dispatches
+				if mc, ok := x.Common().Value.(*ssa.MakeClosure); ok {
+					if f, ok := mc.Fn.(*ssa.Function); ok {
+						found := false
+						ir.EachCall(f, func(cc ssa.CallInstruction) {
+							if c.isDispatchCall(cc) {
+								found = true
+							}
+						})
+						if found {
+							sites = append(sites, in)
+						}
+					}
+				}
+			}
+		})
+		if len(sites) == 0 {
+			continue
+		}
+		pd := flow.NewPostDom(fn)
+		for i, site := range sites {
+			n++
+			bad, tbl := ssa.Instruction(nil), ""
+			for _, g := range pd.ControlDepsTransitive(site.Block()) {
+				if t := condFrom(fn, g.If.Cond); t != "" {
+					bad, tbl = g.If, t
+					break
+				}
+			}
+			// an early return between the function's entry and the site that is not a control dependence of the site's
+			// block in the post-dominator sense (`if dup { return }` before the site) shows up as a guard of the site
+			if bad == nil {
+				for _, g := range flow.Guards(fn, site.Block()) {
+					if t := condFrom(fn, g.If.Cond); t != "" {
+						bad, tbl = g.If, t
+						break
+					}
+				}
+			}
+			detail := ""
+			if bad != nil {
+				detail = sprintf("%s decides whether the request is dispatched from %s, a table of the server shared by all sessions, looked up by a key computed from the request's id alone (%s): two sessions use the same id independently, so while one session's request is in the table the other's is dropped — its handler and the middleware chain never run and its call gets no answer", fname(fn), tbl, ipos(c, bad))
+			}
+			c.R.Check(bad == nil, rule, sprintf("guards of dispatch site #%d in %s", i+1, fname(fn)), c.Pos(site.Pos()),
+				"no guard is computed from session-shared state keyed by the request id alone", detail)
+		}
+	}
+	c.R.Min(rule, 3)
+}
+
+// ---------------------------------------------------------------- R-response-needs-id (C03)
+// A posted JSON-RPC object is a request (method and id), a notification (method, no id) or the client's answer to a
+// server request (id, no method). An object with neither is not a JSON-RPC message and is refused. Where a server
+// function routes an incoming message either to the dispatcher or to the code that matches answers with pending server
+// requests, the branch into the answer path is therefore decided — among other things — by the presence of the id: by a
+// nil test of the id member on the path, by a library predicate that makes that test, or by the message kind computed
+// by the classifier. A branch taken on "no method" alone accepts `{"jsonrpc":"2.0"}` with an empty 202.
+func c03ResponseNeedsID(c *Ctx) {
+	pend := pendingInserts(c, true)
+	matcher := map[*ssa.Function]bool{}
+	for _, fn := range c.P.LibFns {
+		if clientSide(c, fn) {
+			continue
+		}
+		ir.EachInstr(fn, func(_ *ssa.BasicBlock, _ int, in ssa.Instruction) {
+			if l, ok := in.(*ssa.Lookup); ok {
+				for tbl := range pend {
+					if fromTableLookup(l, tbl) {
+						matcher[fn] = true
+					}
+				}
+			}
+		})
+	}
+	if len(matcher) == 0 {
+		c.R.Break("R-response-needs-id: no function matches answers with a pending table")
+		return
+	}
+	reachesMatcher := func(f *ssa.Function) bool {
+		if matcher[f] {
+			return true
+		}
+		for g := range c.ReachSync(f) {
+			if matcher[g] {
+				return true
+			}
+		}
+		return false
+	}
+	isIDLoad := func(v ssa.Value) bool {
+		f, _, ok := ir.LoadedField(v)
+		if !ok || f.Name != "ID" {
+			return false
+		}
+		_, isIface := f.Type.Underlying().(*types.Interface)
+		return isIface
+	}
+	var idTested func(fn *ssa.Function, cond ssa.Value, branch bool, d int) bool
+	idTested = func(fn *ssa.Function, cond ssa.Value, branch bool, d int) bool {
+		for {
+			if u, ok := cond.(*ssa.UnOp); ok && u.Op == token.NOT {
+				cond, branch = u.X, !branch
+				continue
+			}
+			break
+		}
+		if v, op, ok := nilCompare(cond); ok && isIDLoad(v) {
+			return (op == token.NEQ) == branch
+		}
+		switch x := cond.(type) {
+		case *ssa.BinOp:
+			if x.Op == token.EQL || x.Op == token.NEQ {
+				for _, o := range []ssa.Value{x.X, x.Y} {
+					if strings.HasSuffix(ir.TypeStr(o.Type()), "JSONRPCMessageType") {
+						return true
+					}
+				}
+			}
+		case *ssa.Call:
+			sc := ir.StaticCallee(x)
+			if sc == nil || !c.P.IsLib(sc) || d > 2 {
+				return false
+			}
+			found := false
+			for _, f := range ir.WithClosures(sc) {
+				ir.EachInstr(f, func(_ *ssa.BasicBlock, _ int, in ssa.Instruction) {
+					if b, ok := in.(*ssa.BinOp); ok {
+						if v, _, ok := nilCompare(b); ok && isIDLoad(v) {
+							found = true
+						}
+					}
+				})
+			}
+			return found
+		}
+		return false
+	}
+	dr := c.dispatchReach()
+	n := 0
+	for _, fn := range c.P.LibFns {
+		if clientSide(c, fn) || matcher[fn] {
+			continue
+		}
+		var answerCalls []ssa.CallInstruction
+		dispatches := false
+		ir.EachCall(fn, func(call ssa.CallInstruction) {
+			if _, isGo := call.(*ssa.Go); isGo {
+				// a goroutine counts like a call here
+			}
+			toMatcher, toDispatch := false, false
+			for _, cal := range ir.Callees(c.G, call) {
+				if !c.P.IsLib(cal) {
+					continue
+				}
+				if dr[cal] {
+					toDispatch = true
+				} else if reachesMatcher(cal) {
+					toMatcher = true
+				}
+			}
+			if toDispatch {
+				dispatches = true
+			} else if toMatcher {
+				answerCalls = append(answerCalls, call)
+			}
+		})
+		if !dispatches || len(answerCalls) == 0 {
+			continue
+		}
+		pd := flow.NewPostDom(fn)
+		for i, call := range answerCalls {
+			n++
+			ok := false
+			guards := append(pd.ControlDepsTransitive(call.Block()), flow.Guards(fn, call.Block())...)
+			for _, g := range guards {
+				if idTested(fn, g.If.Cond, g.Branch, 0) {
+					ok = true
+				}
+			}
+			c.R.Check(ok, "R-response-needs-id", sprintf("branch #%d into the answer path in %s", i+1, fname(fn)), c.Pos(call.Pos()),
+				"taken only for a message whose id is present (nil test, id predicate, or message kind)",
+				sprintf("%s hands an incoming message to the code that matches client answers with pending server requests on a path where the presence of the id was never tested: an object with neither method nor id — not a JSON-RPC message at all — is accepted as an answer (202 with an empty body) instead of being refused", fname(fn)))
+		}
+	}
+	c.R.Min("R-response-needs-id", 2)
+}
+
+// ---------------------------------------------------------------- R-reader-not-throttled (C06)
+// A server handler may call back into the client (roots/list, sampling) and wait for the answer — which arrives on the
+// same input stream the request came from. The loop that reads that stream and starts a goroutine per message must
+// therefore never wait for those goroutines: a blocking channel operation in the loop on a channel it shares with the
+// goroutines it starts (a slot semaphore, a completion channel) stops the reader as soon as enough handlers are waiting
+// for answers only the reader can deliver — calls and answers then wait for each other until their timeouts.
+func c06ReaderNotThrottled(c *Ctx) {
+	n := 0
+	dr := c.dispatchReach()
+	// the functions a tools/call request ends up in (the stdio server routes to them with a switch of its own)
+	callTargets := map[*ssa.Function]bool{}
+	for _, rows := range c.MapLiteralDispatch() {
+		for _, r := range rows {
+			if r.Method == "tools/call" && r.Target != nil {
+				callTargets[r.Target] = true
+			}
+		}
+	}
+	for _, fn := range c.P.LibFns {
+		if clientSide(c, fn) {
+			continue
+		}
+		ir.EachInstr(fn, func(b *ssa.BasicBlock, _ int, in ssa.Instruction) {
+			g, ok := in.(*ssa.Go)
+			if !ok || !flow.InCycle(b) {
+				return
+			}
+			mc, ok := g.Call.Value.(*ssa.MakeClosure)
+			var started *ssa.Function
+			shared := map[ssa.Value]bool{}
+			isChan := func(v ssa.Value) bool {
+				t := v.Type()
+				if p, ok := t.Underlying().(*types.Pointer); ok {
+					t = p.Elem()
+				}
+				_, is := t.Underlying().(*types.Chan)
+				return is
+			}
+			if ok {
+				started, _ = mc.Fn.(*ssa.Function)
+				for _, bnd := range mc.Bindings {
+					if isChan(bnd) {
+						shared[bnd] = true
+					}
+				}
+			} else {
+				started = ir.StaticCallee(g)
+			}
+			for _, a := range g.Call.Args {
+				if isChan(a) {
+					shared[a] = true
+				}
+			}
+			if started == nil {
+				return
+			}
+			handles := dr[started]
+			if !handles {
+				for f := range c.Reach(started) {
+					if dr[f] || callTargets[f] || decodesRequest(f) {
+						handles = true
+					}
+				}
+			}
+			if !handles {
+				return
+			}
+			n++
+			// channel values equal to a shared one (directly, or loaded from the shared cell)
+			same := func(v ssa.Value) bool {
+				if shared[v] {
+					return true
+				}
+				if u, ok := v.(*ssa.UnOp); ok && u.Op == token.MUL && shared[u.X] {
+					return true
+				}
+				return false
+			}
+			var bad ssa.Instruction
+			ir.EachInstr(fn, func(b2 *ssa.BasicBlock, _ int, u ssa.Instruction) {
+				if bad != nil || !flow.InCycle(b2) {
+					return
+				}
+				switch x := u.(type) {
+				case *ssa.Send:
+					if same(x.Chan) {
+						bad = u
+					}
+				case *ssa.Select:
+					if !x.Blocking {
+						return
+					}
+					for _, st := range x.States {
+						if same(st.Chan) {
+							bad = u
+						}
+					}
+				case *ssa.UnOp:
+					if x.Op == token.ARROW && same(x.X) {
+						bad = u
+					}
+				}
+			})
+			detail := ""
+			if bad != nil {
+				detail = sprintf("the loop in %s that reads incoming messages and starts a goroutine for each one waits (%s) on a channel it shares with those goroutines: once enough handlers are blocked waiting for the client's answer to a request of their own (roots/list), the reader stops reading — and the answers they wait for are on the stream it no longer reads", fname(fn), ipos(c, bad))
+			}
+			c.R.Check(bad == nil, "R-reader-not-throttled", sprintf("message loop of %s", fname(fn)), c.Pos(g.Pos()), "the loop never blocks on a channel shared with the goroutines it starts", detail)
+		})
+	}
+	c.R.Min("R-reader-not-throttled", 1)
+}
+
+// decodesRequest: the function holds a JSONRPCRequest of its own (it decodes an incoming request).
+func decodesRequest(f *ssa.Function) bool {
+	found := false
+	ir.EachInstr(f, func(_ *ssa.BasicBlock, _ int, in ssa.Instruction) {
+		if al, ok := in.(*ssa.Alloc); ok {
+			if pt, ok := al.Type().Underlying().(*types.Pointer); ok && strings.HasSuffix(ir.TypeStr(pt.Elem()), "mcp.JSONRPCRequest") {
+				found = true
+			}
+		}
+	})
+	return found
+}
